@@ -236,3 +236,88 @@ func VerifC10EvalAll() {
 }
 
 var _ = list.New
+
+// ---- real YAML decoder ----
+//
+// VerifC10RealFiles: the same loop with the real yamlDecoder (reused for every file, as EvaluateFiles and
+// readDocuments reuse it) on file texts that mix ordinary, multi-document, comment-only and empty files: what the
+// stream delivers for file k — documents, their leading content, their indices — must be what the same file gives
+// when it is the only file read by a fresh decoder. Both modes (sequence; eval-all with EvaluateTogether).
+var c10Texts = []string{"x: 1\n", "# only a comment\n# second line\n", "# c\nb: 2\n", "---\ny: 2\n", "", "a: 1\n---\n# mid\nb: 2\n", "--- # t\nz: 3\n"}
+
+type c10RecEncoder struct{ events *[]string }
+
+func (e *c10RecEncoder) Encode(_ io.Writer, node *CandidateNode) error {
+	*e.events = append(*e.events, "NODE "+vDumpFull(node)+" lead="+node.LeadingContent+" f="+verifItoa(int64(node.fileIndex)))
+	return nil
+}
+func (e *c10RecEncoder) PrintDocumentSeparator(_ io.Writer) error { return nil }
+func (e *c10RecEncoder) PrintLeadingContent(_ io.Writer, content string) error {
+	*e.events = append(*e.events, "LEAD "+content)
+	return nil
+}
+func (e *c10RecEncoder) CanHandleAliases() bool { return true }
+
+func c10RunFiles(texts []string, firstIndex int, evalAll bool) ([]string, bool) {
+	prefs := NewDefaultYamlPreferences()
+	prefs.EvaluateTogether = evalAll
+	dec := NewYamlDecoder(prefs)
+	var events []string
+	var out bytes.Buffer
+	printer := NewPrinter(&c10RecEncoder{events: &events}, NewSinglePrinterWriter(&out))
+	if !evalAll {
+		ev := NewStreamEvaluator().(*streamEvaluator)
+		ev.fileIndex = firstIndex
+		for _, t := range texts {
+			if _, err := ev.Evaluate("f.yml", strings.NewReader(t), vParse("."), printer, dec); err != nil {
+				return events, false
+			}
+		}
+		return events, true
+	}
+	all := list.New()
+	if firstIndex > 0 {
+		// standing in for "not the first file": eval-all takes leading content from the first file only
+		_ = dec.Init(strings.NewReader(""))
+	}
+	for i, t := range texts {
+		docs, err := readDocuments(strings.NewReader(t), "f.yml", firstIndex+i, dec)
+		if err != nil {
+			return events, false
+		}
+		all.PushBackList(docs)
+	}
+	for el := all.Front(); el != nil; el = el.Next() {
+		n := el.Value.(*CandidateNode)
+		events = append(events, "DOC "+vDumpFull(n)+" lead="+n.LeadingContent+" f="+verifItoa(int64(n.fileIndex)))
+	}
+	return events, true
+}
+
+func VerifC10RealFiles() {
+	evalAll := verifChoice("evalAll", 2) == 1
+	t0 := verifChoice("file0", len(c10Texts))
+	t1 := verifChoice("file1", len(c10Texts))
+	both, okBoth := c10RunFiles([]string{c10Texts[t0], c10Texts[t1]}, 0, evalAll)
+	first, okFirst := c10RunFiles([]string{c10Texts[t0]}, 0, evalAll)
+	second, okSecond := c10RunFiles([]string{c10Texts[t1]}, 1, evalAll)
+	mode := " mode=eval"
+	if evalAll {
+		mode = " mode=eval-all"
+	}
+	verifAssert(okBoth == (okFirst && okSecond), "C10/real-files-error-depends-on-neighbour-file"+mode)
+	if !okBoth || !okFirst || !okSecond {
+		return
+	}
+	if evalAll {
+		// eval-all takes leading content from the first file only (decoder_yaml.go: comments of later files stay in the
+		// nodes); the stand-alone run of the second file is therefore made with a decoder that has seen an empty file
+		verifCover("C10/real/evalall")
+	}
+	got := strings.Join(both, "; ")
+	want := strings.Join(append(append([]string{}, first...), second...), "; ")
+	verifObserve("got", got)
+	verifObserve("want", want)
+	verifAssert(got == want, "C10/file-result-depends-on-neighbour-file"+mode)
+	verifCover("C10/real/end")
+}
